@@ -94,6 +94,7 @@ type PathState struct {
 	Choices  []int // harness-level Choice outcomes, in order (for replay)
 	tags     []tagRec
 	Known    map[string]bool // known-finding tag ids
+	KnownLabels map[string][]string // tag id -> assertion labels it explains (empty: any)
 	Res      PathResult
 	MaxSteps int
 	Unwind   int
@@ -295,7 +296,7 @@ func (fr *frame) assertProp(label string, c *term.Term, msg string) {
 	var knownT []*term.Term
 	var knownIDs []string
 	for _, tg := range ps.tags {
-		if ps.Known[tg.id] && !tg.t.IsFalse() {
+		if ps.Known[tg.id] && !tg.t.IsFalse() && labelCovered(ps.KnownLabels[tg.id], label) {
 			knownT = append(knownT, tg.t)
 			knownIDs = append(knownIDs, tg.id)
 		}
@@ -399,4 +400,16 @@ func (fr *frame) decideNoFork(c *term.Term, prefer bool) bool {
 	}
 	ps.Decs = append(ps.Decs, Decision{Kind: 'b', Out: o})
 	return out
+}
+
+func labelCovered(labels []string, label string) bool {
+	if len(labels) == 0 {
+		return true
+	}
+	for _, l := range labels {
+		if l == label || (strings.HasSuffix(l, "*") && strings.HasPrefix(label, strings.TrimSuffix(l, "*"))) {
+			return true
+		}
+	}
+	return false
 }
